@@ -27,6 +27,9 @@ RInit == r = [ now |-> 0, started |-> FALSE, rs |-> "DISCONNECTED", tries |-> 0,
                att |-> "none",          \* attempt in flight: none | starting | finishing
                unwinding |-> FALSE,     \* the attempt in flight was cancelled; it will still report its failure
                pending |-> FALSE,       \* a connect task exists that has not begun its attempt yet (trigger / lock wait)
+               vb |-> FALSE,            \* the device has answered the attempt in flight with a verdict that rules the session out for good
+                                        \* (invalid password, encryption required): its failure is an authentication-type one
+               zc |-> FALSE,            \* a zeroconf instance created by the library exists (none was supplied)
                live |-> FALSE,          \* an established session exists
                grace |-> FALSE,         \* a graceful end of that session has been initiated (the application's disconnect(),
                                         \* a disconnect request of the device): its end will be an expected one
@@ -37,7 +40,12 @@ RInit == r = [ now |-> 0, started |-> FALSE, rs |-> "DISCONNECTED", tries |-> 0,
 Begin(x) == [x EXCEPT !.ev = <<>>]
 Emit(x, e) == [x EXCEPT !.ev = Append(@, e)]
 StopListen(x) == IF x.listen THEN Emit([x EXCEPT !.listen = FALSE], <<"zc_remove">>) ELSE x
-StartListen(x) == IF x.listen THEN x ELSE Emit([x EXCEPT !.listen = TRUE], <<"zc_add">>)
+\* (no zeroconf instance was supplied by the application: the library creates one when it first needs it - C20)
+StartListen(x) == IF x.listen THEN x
+                  ELSE LET y == IF x.zc THEN x ELSE Emit([x EXCEPT !.zc = TRUE], <<"zc_new">>)
+                       IN Emit([y EXCEPT !.listen = TRUE], <<"zc_add">>)
+\* ... and closes it again when the manager is stopped
+CloseOwnZc(x) == IF x.zc THEN Emit([x EXCEPT !.zc = FALSE], <<"zc_close">>) ELSE x
 SetState(x, st) == [x EXCEPT !.rs = st, !.accept = st \in {"DISCONNECTED", "CONNECTING"}]
 
 \* a connect task that got the lock: it begins an attempt, or finds nothing to do
@@ -59,7 +67,7 @@ ScheduleConnect(x, delay) == IF delay = 0 THEN Trigger(x) ELSE [x EXCEPT !.timer
 
 \* stop() obtained the lock
 StopFinish(x) ==
-  LET y == StopListen(SetState([x EXCEPT !.started = FALSE, !.timer = NoT, !.stopwait = FALSE, !.pending = FALSE], "DISCONNECTED"))
+  LET y == CloseOwnZc(StopListen(SetState([x EXCEPT !.started = FALSE, !.timer = NoT, !.stopwait = FALSE, !.pending = FALSE], "DISCONNECTED")))
   IN Emit(y, <<"stop_ret">>)
 \* The lock is handed over in a LATER loop callback than the one that released it (asyncio.Lock wakes
 \* its first waiter through a future), so other events may come in between; waiters are served in
@@ -93,6 +101,9 @@ Mdns(x0, match) ==
   IF ~(x.accept /\ x.started /\ match /\ x.listen) THEN {x}
   ELSE {[Trigger(StopListen(x)) EXCEPT !.accept = FALSE]}
 
+\* the device answers the attempt in flight (handshaking) with an invalid-password / encryption-required verdict
+VerdictBad(x0) == LET x == Begin(x0) IN IF x.att = "finishing" THEN {[x EXCEPT !.vb = TRUE]} ELSE {x}
+
 \* the application calls client.disconnect() on the live session, or the device asks to disconnect
 Graceful(x0) == LET x == Begin(x0) IN IF x.live THEN {[x EXCEPT !.grace = TRUE]} ELSE {x}
 
@@ -109,9 +120,11 @@ TcpUp(x0) ==
 \* the attempt in flight fails: on_connect_error, back-off, listen for mDNS, release the lock
 Fail(x0, auth) ==
   LET x == Begin(x0) IN
-  IF x.att = "none" THEN {}
+  \* (the class reported is the device's verdict if it gave one - whatever closed the connection afterwards - and an
+  \* authentication-type failure is never reported without one; an attempt that was cancelled meanwhile may report either)
+  IF x.att = "none" \/ (auth /\ ~x.vb) \/ (~auth /\ x.vb /\ ~x.unwinding) THEN {}
   ELSE LET t == IF auth THEN AuthTries ELSE x.tries + 1
-           y1 == Emit(SetState([x EXCEPT !.att = "none", !.unwinding = FALSE], "DISCONNECTED"), <<"error_cb", auth>>)
+           y1 == Emit(SetState([x EXCEPT !.att = "none", !.unwinding = FALSE, !.vb = FALSE], "DISCONNECTED"), <<"error_cb", auth>>)
            y2 == StartListen([y1 EXCEPT !.tries = t])
            y3 == [y2 EXCEPT !.timer = x.now + Backoff(Min(t, 10))]
        IN {y3}
@@ -120,7 +133,7 @@ Fail(x0, auth) ==
 Succeed(x0) ==
   LET x == Begin(x0) IN
   IF x.att # "finishing" THEN {}
-  ELSE {Emit(SetState([x EXCEPT !.att = "none", !.tries = 0, !.live = TRUE, !.grace = FALSE, !.lastcb = "connect"], "READY"), <<"connect_cb">>)}
+  ELSE {Emit(SetState([x EXCEPT !.att = "none", !.tries = 0, !.live = TRUE, !.grace = FALSE, !.vb = FALSE, !.lastcb = "connect"], "READY"), <<"connect_cb">>)}
 
 \* the session ends: on_disconnect, then an immediate retry (unexpected) or a cool-down (expected)
 SessionEnd(x0, expected) ==
